@@ -606,3 +606,4 @@ RULE_ADDENDA_4 = {
 }
 for _k, _t in RULE_ADDENDA_4.items():
     PROPS[_k]["rule"] += " " + _t
+PROPS["C07"]["rule"] += " Collections are also opened by their own address (':open <outbox or comment-section address>'): the page then lists every entry as what it is, in order."
